@@ -41,11 +41,11 @@ CLAIMED.update({
             "Histories over 2-4 documents with adjacent ids: writes, policies, peers, open/close, remove (open and closed), re-create, restarts. Removal must be refused while open, leave no observable residue (entries, both query paths, heads, peers, policy, capability), leave every other document byte-identical, and content_hashes must equal the hashes of all held entries at every observation. Half of the document and author ids end in 0xFF (carry case of the range bounds). A second batch removes documents through the real store actor (close counting, removal refused while any handle is open).",
             "Document ids are real public keys (crafted ids are not reachable through the public API for entries). In three quarters of the store-level runs 1-3 read-only documents with crafted ids (predecessor, successor, last byte FF and its successor, +-256, all-FF, all-zero of a real id) take settings (capability, policy, peers) next to the real ones; they must never show entries and removal on either side must not touch the other.", "5 C16"),
     "C17": ("exploration", TECH,
-            "Registration sequences over 1-9 peers and 2-4 documents with restarts against an MRU-list model, with a strictly increasing simulated clock (decisive batch) and, as a separate batch, clock stalls and backward jumps between registrations.",
+            "Registration sequences over 1-9 peers and 2-4 documents with restarts against an MRU-list model, with a strictly increasing simulated clock (decisive batch) and, as a separate batch, clock stalls and backward jumps between registrations; on file-backed stores the list must also survive a reopen from a database file in the redb 2.x format; a fifth of the disk-backed runs end with an unflushed crash after which every list must hold at most five distinct peers that were registered for that document.",
             "none beyond the common ones", "5 C17"),
     "C18": ("exploration", TECH,
             "At a restart the disk image is opened with plain redb and the derived tables (by-key index, heads, or both) are deleted, as in a file written by an older version; after reopening through Store (migrations run) heads and key-ordered queries must answer as before; reopening an up-to-date image 1-4 times must change no observation.",
-            "Only the two populate-if-empty migrations are exercised (the namespaces-v1 and redb-v2 migrations have their own unit tests and no derived state).", "5 C18"),
+            "On file-backed stores the database file is also rewritten in the redb 2.x tuple format (as iroh-docs 0.94..=0.98 wrote it), with or without the derived tables, and opened through Store::persistent (format conversion, then the populate-if-empty migrations); every crash point of the open that rebuilds the derived tables must, when opened again, answer like the uninterrupted open. The namespaces-v1 migration is not exercised.", "5 C18"),
 })
 
 CLAIMED.update({
